@@ -62,6 +62,7 @@ var xlateTargets = map[string][]string{
 		"uint16BE", "headerChunkType", "headerLen", "chunkHeader.UnmarshalBinary", "chunkState.next", "chunkState.defaultChunkType",
 		"buffer.Buffered", "buffer.addIndex", "buffer.Discard", "buffer.WriteByte", "decoderDict.WriteByte",
 		"encoderDict.DictLen", "encoderDict.Available", "encoderDict.Buffered",
+		"hashTableExponent", "hashTable.buffered", "hashTable.addIndex", "hashTable.putDelta", "hashTable.putEntry", "hashTable.getMatches",
 	},
 	".": {"padLen", "readUvarint", "readSizeInBlockHeader", "readRecord", "verifyFlags"},
 }
@@ -148,6 +149,11 @@ func isErrorType(t types.Type) bool {
 // (an io.ByteReader / io.ByteWriter value stands for the stream behind it)
 func isRefType(t types.Type) bool {
 	if _, ok := t.(*types.Pointer); ok {
+		return true
+	}
+	if _, ok := t.(*types.Slice); ok {
+		// a slice parameter written through by the callee (an out-parameter): the updated array is returned; the
+		// caller's argument must be an lvalue; callee and caller must not hold another live view of it (not checked)
 		return true
 	}
 	return namedIs(t, "io", "ByteReader") || namedIs(t, "io", "ByteWriter")
